@@ -147,8 +147,8 @@ impl Campaign for C07c {
     }
     fn runs(&self, tier: Tier) -> u64 {
         match tier {
-            Tier::Quick => 20_000,
-            Tier::Thorough => 1_000_000,
+            Tier::Quick => 150_000,
+            Tier::Thorough => 4_000_000,
         }
     }
     fn generate(&self, rng: &mut Rng, index: u64, _tier: Tier) -> Scenario {
@@ -249,8 +249,8 @@ impl Campaign for C17c {
     }
     fn runs(&self, tier: Tier) -> u64 {
         match tier {
-            Tier::Quick => 20_000,
-            Tier::Thorough => 1_000_000,
+            Tier::Quick => 150_000,
+            Tier::Thorough => 5_000_000,
         }
     }
     fn generate(&self, rng: &mut Rng, index: u64, _tier: Tier) -> Scenario {
